@@ -53,6 +53,9 @@ def generate(rng, cfg, guards):
         w.pop('restart', None)
     pairs = sorted(w.items())
     ops = [W.gen_common(rng, 'new'), rng.pick([['do_add', 0], ['append', 0]])]
+    if rng.chance(0.15):
+        # the first selections are made while the collection is still empty
+        ops = [W.gen_common(rng, 'new'), W.gen_common(rng, 'do_apply'), ['undo'], ['do_add', 0]]
     for _ in range(rng.randrange(0, 3)):
         ops.append(W.gen_common(rng, rng.pick(['new_group', 'set_edit', 'set_mode', 'new', 'append'])))
     while len(ops) < n:
@@ -85,12 +88,18 @@ def snapshot(w):
     for e in (es or []):
         idx = [i for i, g in enumerate(gl) if g is e]
         edit.append(idx[0] if idx else 'not-in-collection')
-    return {'data': ids, 'groups': groups, 'edit': edit}
+    # subsets that belong to none of the collection's groups (e.g. created by a group that was undone but still listens)
+    strays = []
+    for i in ids:
+        n = sum(1 for s_ in w.pool[i].subsets if not any(getattr(s_, 'group', None) is g for g in dc.subset_groups))
+        if n:
+            strays.append([i, n])
+    return {'data': ids, 'groups': groups, 'edit': edit, 'strays': strays}
 
 
 def diff(a, b, with_edit=True):
     out = []
-    for k in ('data', 'groups') + (('edit',) if with_edit else ()):
+    for k in ('data', 'groups', 'strays') + (('edit',) if with_edit else ()):
         if a[k] != b[k]:
             out.append('%s: expected %r got %r' % (k, a[k], b[k]))
     return '; '.join(out)[:900]
